@@ -87,20 +87,21 @@ PusExp(op, a) ==
          IF ~TcFits(a.p) THEN ExpRej(<<"*">>)     \* data that does not fit: packing must fail (how is not stated)
          ELSE LET t == TcOf(a.p)  w == TcEnc(t)
               IN [octets |-> w, plen |-> Len(w), sp |-> w, crcok |-> TRUE,
-                  dec |-> t, dplen |-> Len(w), eq |-> TRUE, repack |-> w]
+                  dec |-> t, dplen |-> Len(w), eq |-> TRUE, repack |-> w,
+                  keep |-> w]       \* pack(recalc_crc = FALSE) of the decoded object: its stored CRC field is the packet's own
     [] op = "tc.unpack" ->
          LET d == TcDec(a.octets)
-         IN IF d.ok THEN [v |-> d.v, plen |-> d.n, repack |-> Take(a.octets, d.n)]
+         IN IF d.ok THEN [v |-> d.v, plen |-> d.n, repack |-> Take(a.octets, d.n), keep |-> Take(a.octets, d.n)]
             ELSE ExpRej(d.rej)
     [] op = "tm.rt" ->
          IF ~TmFits(a.p) THEN ExpRej(<<"*">>)
          ELSE LET t == TmOf(a.p)  w == TmEnc(t)
               IN [octets |-> w, plen |-> Len(w), sp |-> w, crcok |-> TRUE,
-                  dec |-> t, dplen |-> Len(w), eq |-> TRUE, repack |-> w,
+                  dec |-> t, dplen |-> Len(w), eq |-> TRUE, repack |-> w, keep |-> w,
                   stampat |-> SubSeq(w, TmStampOffset + 1, TmStampOffset + Len(a.p.stamp))]
     [] op = "tm.unpack" ->
          LET d == TmDec(a.octets, a.tslen)
-         IN IF d.ok THEN [v |-> d.v, plen |-> d.n, repack |-> Take(a.octets, d.n)]
+         IN IF d.ok THEN [v |-> d.v, plen |-> d.n, repack |-> Take(a.octets, d.n), keep |-> Take(a.octets, d.n)]
             ELSE ExpRej(d.rej)
     [] op = "pus.crc" -> [ok |-> Crc16(a.octets) = 0]
     [] op = "tm.svc_raw" ->
